@@ -288,7 +288,7 @@ def borrowed_and_factory_cases(ctx):
                       ("load-fortran-nocopy", lambda: (lambda w: (w.load_data(np.asfortranarray((np.arange(6, dtype=np.uint8) % 5).reshape(3, 2)), copy=False), w)[1])(DigitalWaveform(1, 2))),
                       ("from_port", lambda: DigitalWaveform.from_port(np.array([1, 2, 3], np.uint8), 0x03)),
                       ("from_ports", lambda: DigitalWaveform.from_ports(np.array([[1, 2, 3], [4, 5, 6]], np.uint8), [0x03, 0x07])[1])):
-        for op in ("append", "capacity", "load"):
+        for op in ("append", "capacity", "load", "trim", "grow-trim"):
             w = mk()
             b = w.data.tolist()
             nc = w.signal_count
@@ -299,6 +299,19 @@ def borrowed_and_factory_cases(ctx):
                 r = outcome(lambda: w.append(extra)); exp = b + extra.tolist()
             elif op == "capacity":
                 r = outcome(lambda: setattr(w, "capacity", w.capacity + 5)); exp = b
+            elif op == "trim":
+                # drop the last sample, then give the slack back: the remaining samples stay what they were
+                def f():
+                    w.sample_count = max(0, len(b) - 1)
+                    w.capacity = w.start_index + w.sample_count
+                r = outcome(f); exp = b[:max(0, len(b) - 1)]
+                if r[0] == "err" and not w._data.flags.owndata and not w._data.flags.c_contiguous:
+                    continue        # a strided view that NumPy cannot resize: a refusal, not a wrong sample
+            elif op == "grow-trim":
+                def f():
+                    w.capacity = w.capacity + 5
+                    w.capacity = w.capacity - 3
+                r = outcome(f); exp = b
             else:
                 big = np.zeros((w.capacity + 3, nc), np.uint8)
                 r = outcome(lambda: w.load_data(big)); exp = big.tolist()
